@@ -344,7 +344,9 @@ done:
 	if !truncated {
 		for iter.Next() {
 			object := iter.Key().(string)
-			if matched := prefix.Match(object, &match); matched && !match.CommonPrefix {
+			// a key that is rolled up into a common prefix is an entry that
+			// has not been returned yet, too: the next page reports its prefix
+			if matched := prefix.Match(object, &match); matched {
 				truncated = true
 
 				// This is not especially defensive; it assumes the rest of the code works
